@@ -1,3 +1,203 @@
-import GambitV.Model.Cli
+import GambitV.Lemmas.Csv
+import GambitV.Lemmas.Bulk
+
+/-!
+# C16 — `gambit dist`: labels, the CSV distance matrix, 4-decimal cells, `--square`
+
+* CSV (`Model/Csv.lean`, CPython `csv.writer` QUOTE_MINIMAL / `csv.reader`): a table read back is the
+  table written (`csv_roundtrip`), for every field with the default `\r\n` terminator
+  (`csv_roundtrip_crlf`); with terminator `\n` a bare `\r` in an otherwise unquoted field breaks the
+  record (`bare_cr_counterexample`, finding C11-F1).
+* labels (`Model/Cli.lean`, `get_file_id`): directory, one `.gz` and one FASTA extension are removed
+  (`label_spec`, `label_no_dir`), anything else is kept (`label_plain`).
+* `distCsv` (`dump_dmat_csv`): the file parses to header = corner + reference labels and one row per
+  query: label, then the formatted cells in reference order (`distCsv_parse`).
+* `F32.fmt4`: the rendered number is value·10⁴ rounded to nearest, ties to even (`fmt4_nearest`).
+* `--square` equals queries-vs-themselves (`square_eq_self_matrix`).
+
+Helper lemmas: `Lemmas/Csv.lean` (reader state machine; extension stripping; rounding),
+`Lemmas/Bulk.lean` (`pairwiseSquare`).  Core Lean only.
+-/
 namespace GambitV.C16
+open GambitV
+
+/-! ### 1–3. CSV round trip -/
+
+/-- 1. Fields with commas, quotes, LF, CRLF, any Unicode survive a write/read cycle; excluded are
+only fields containing a newline character that the writer does not quote (`fieldOk`). -/
+theorem csv_roundtrip (lt : List Char) (hlt : lt = ['\n'] ∨ lt = ['\r', '\n'])
+    (rows : List (List (List Char))) (hne : ∀ row ∈ rows, row ≠ [])
+    (hok : ∀ row ∈ rows, ∀ f ∈ row, fieldOk lt f = true) :
+    parseCsv (writeCsv lt rows) = rows :=
+  Csv.csv_roundtrip lt hlt rows hne hok
+
+/-- with the default terminator every field satisfies the guard -/
+theorem fieldOk_crlf (f : List Char) : fieldOk ['\r', '\n'] f = true := Csv.fieldOk_crlf f
+
+/-- 2. Default dialect (`\r\n`): every table with non-empty rows survives. -/
+theorem csv_roundtrip_crlf (rows : List (List (List Char))) (hne : ∀ row ∈ rows, row ≠ []) :
+    parseCsv (writeCsv ['\r', '\n'] rows) = rows :=
+  Csv.csv_roundtrip_crlf rows hne
+
+/-- 3. Finding C11-F1 as a theorem about the model. -/
+theorem bare_cr_counterexample :
+    parseCsv (writeCsv ['\n'] [[['a', '\r', 'b'], ['c']]]) ≠ [[['a', '\r', 'b'], ['c']]] :=
+  Csv.bare_cr_counterexample
+
+/-! ### 4. Labels -/
+
+/-- 4. `dir/stem.ext[.gz]` is labelled `stem`, for every FASTA extension `ext` of the tuple, with or
+without `.gz`, whatever `stem` is (it may itself contain dots or end in another extension: only one
+extension is removed; no FASTA extension is a suffix of another, so the order of the tuple does not
+matter and no side condition on `stem` is needed). -/
+theorem label_spec (dir stem : List Char) (ext : List Char) (hext : ext ∈ fastaExts) (gz : Bool)
+    (hstem : '/' ∉ stem) :
+    fileLabel (dir ++ ['/'] ++ stem ++ ext ++ (if gz then ".gz".toList else [])) = stem := by
+  unfold fileLabel
+  have e : dir ++ ['/'] ++ stem ++ ext ++ (if gz then ".gz".toList else []) =
+      dir ++ ['/'] ++ (stem ++ ext ++ (if gz then ".gz".toList else [])) := by
+    simp only [List.append_assoc]
+  rw [e, Cli.basename_dir _ _ (Cli.name_no_slash stem ext hext gz hstem), Cli.stripSeqExt_spec stem ext hext gz]
+
+/-- 4b. the same without a directory part -/
+theorem label_no_dir (stem : List Char) (ext : List Char) (hext : ext ∈ fastaExts) (gz : Bool)
+    (hstem : '/' ∉ stem) :
+    fileLabel (stem ++ ext ++ (if gz then ".gz".toList else [])) = stem := by
+  unfold fileLabel
+  rw [Cli.basename_nodir _ (Cli.name_no_slash stem ext hext gz hstem), Cli.stripSeqExt_spec stem ext hext gz]
+
+/-- 4c. a name without directory and without a known extension is its own label -/
+theorem label_plain (name : List Char) (h : '/' ∉ name)
+    (hno : ∀ e ∈ gzipExts ++ fastaExts, endsWith name e = false) : fileLabel name = name := by
+  unfold fileLabel stripSeqExt
+  rw [Cli.basename_nodir name h,
+    Cli.stripExtensions_none name gzipExts (fun e he => hno e (List.mem_append_left _ he)),
+    Cli.stripExtensions_none name fastaExts (fun e he => hno e (List.mem_append_right _ he))]
+
+/-- 4d. only the basename matters -/
+theorem label_basename (dir name : List Char) (h : '/' ∉ name) :
+    fileLabel (dir ++ ['/'] ++ name) = fileLabel name := by
+  unfold fileLabel
+  rw [Cli.basename_dir dir name h, Cli.basename_nodir name h]
+
+/-! ### 5. The distance CSV -/
+
+/-- 5. `dump_dmat_csv` output parses to: header = empty corner + reference labels; row `i` = query
+label, then one formatted cell per reference, in order.  Labels may contain commas, quotes, newlines. -/
+theorem distCsv_parse (rowIds colIds : List (List Char)) (cells : List (List UInt32))
+    (_hlen : rowIds.length = cells.length) :
+    parseCsv (distCsv rowIds colIds cells) =
+      ([] :: colIds) :: (rowIds.zip cells).map (fun rc => rc.1 :: rc.2.map (fun b => (F32.fmt4 b).toList)) := by
+  unfold distCsv
+  apply csv_roundtrip_crlf
+  intro row hrow
+  rcases List.mem_cons.1 hrow with h | h
+  · rw [h]; exact List.cons_ne_nil _ _
+  · obtain ⟨rc, _, h2⟩ := List.mem_map.1 h
+    rw [← h2]; exact List.cons_ne_nil _ _
+
+/-- 5b. number of records = 1 + number of query rows -/
+theorem distCsv_rows (rowIds colIds : List (List Char)) (cells : List (List UInt32))
+    (hlen : rowIds.length = cells.length) :
+    (parseCsv (distCsv rowIds colIds cells)).length = rowIds.length + 1 := by
+  rw [distCsv_parse rowIds colIds cells hlen]
+  simp [hlen]
+
+/-! ### 6. `format(d, '0.4f')` -/
+
+open Fmt
+
+/-- 6. For a pattern in the modelled range (`decode b = some (m, e)`, value `m·2^e`): `fmt4 b` is the
+fixed-point rendering of the integer `fmt4Q b`; with `num/den = m·2^e·10^4` exactly, `fmt4Q b` is a
+nearest integer to `num/den`, and on an exact tie it is even. -/
+theorem fmt4_nearest (b : UInt32) (m : Nat) (e : Int) (h : F32.decode b = some (m, e)) :
+    F32.fmt4 b = render4 (fmt4Q b) ∧
+    2 * ((fmt4Q b : Int) * fmt4Den e - fmt4Num m e).natAbs ≤ fmt4Den e ∧
+    (2 * ((fmt4Q b : Int) * fmt4Den e - fmt4Num m e).natAbs = fmt4Den e → fmt4Q b % 2 = 0) := by
+  refine ⟨Fmt.fmt4_eq_render4 b m e h, ?_, ?_⟩
+  · rw [Fmt.fmt4Q_eq b m e h]
+    have := Fmt.roundHalfEven_bounds (fmt4Num m e) (fmt4Den e) (Fmt.fmt4Den_pos e)
+    have hc : ((roundHalfEven (fmt4Num m e) (fmt4Den e) : Nat) : Int) * (fmt4Den e : Int) =
+        ((roundHalfEven (fmt4Num m e) (fmt4Den e) * fmt4Den e : Nat) : Int) := by
+      rw [Int.natCast_mul]
+    rw [hc]
+    omega
+  · rw [Fmt.fmt4Q_eq b m e h]
+    intro htie
+    apply Fmt.roundHalfEven_tie (fmt4Num m e) (fmt4Den e) (Fmt.fmt4Den_pos e)
+    have hc : ((roundHalfEven (fmt4Num m e) (fmt4Den e) : Nat) : Int) * (fmt4Den e : Int) =
+        ((roundHalfEven (fmt4Num m e) (fmt4Den e) * fmt4Den e : Nat) : Int) := by
+      rw [Int.natCast_mul]
+    rw [hc] at htie
+    omega
+
+/-- the exact value: `num/den = m·2^e·10^4` (stated without division) -/
+theorem fmt4_num_den (m : Nat) (e : Int) :
+    (0 ≤ e → fmt4Den e = 1 ∧ fmt4Num m e = m * 2 ^ e.toNat * 10000) ∧
+    (e < 0 → fmt4Den e = 2 ^ (-e).toNat ∧ fmt4Num m e = m * 10000) := by
+  unfold Fmt.fmt4Den Fmt.fmt4Num
+  constructor
+  · intro h; rw [if_pos h, if_pos h]; exact ⟨rfl, rfl⟩
+  · intro h
+    have : ¬ e ≥ 0 := by omega
+    rw [if_neg this, if_neg this]; exact ⟨rfl, rfl⟩
+
+/-! ### 7. `--square` -/
+
+theorem sqCell_eq_dist {α γ : Type} (dist : α → α → γ) (zero : γ)
+    (hsymm : ∀ a b, dist a b = dist b a) (hdiag : ∀ a, dist a a = zero) (sigs : List α)
+    (i j : Nat) (hi : i < sigs.length) (hj : j < sigs.length) :
+    sqCell dist zero sigs i j = dist sigs[i] sigs[j] := by
+  rcases Nat.lt_trichotomy i j with h | h | h
+  · exact sqCell_lt dist zero sigs i j h hj
+  · subst h; rw [sqCell_self, hdiag]
+  · rw [sqCell_symm, sqCell_lt dist zero sigs j i h hi, hsymm]
+
+/-- 7. For a symmetric distance with `dist a a = zero`, the square pairwise matrix (zero diagonal,
+upper triangle computed, mirrored) is the full query × reference matrix of the signatures against
+themselves. -/
+theorem square_eq_self_matrix {α γ : Type} (dist : α → α → γ) (zero : γ)
+    (hsymm : ∀ a b, dist a b = dist b a) (hdiag : ∀ a, dist a a = zero) (sigs : List α) :
+    pairwiseSquare dist zero sigs = sigs.map (fun a => sigs.map (dist a)) := by
+  rw [pairwiseSquare_eq]
+  apply List.ext_getElem
+  · simp
+  · intro i h1 h2
+    simp only [List.getElem_map, List.getElem_range]
+    apply List.ext_getElem
+    · simp
+    · intro j h3 h4
+      simp only [List.getElem_map, List.getElem_range]
+      simp only [List.length_map, List.length_range] at h1 h3
+      exact sqCell_eq_dist dist zero hsymm hdiag sigs i j h1 h3
+
+/-! ### 8. Non-vacuity -/
+
+example : fileLabel "data/x y.fasta.gz".toList = "x y".toList := by decide
+example : fileLabel "a.fa.fasta".toList = "a.fa".toList := by decide
+example : fileLabel "/d.fa/a.b.fna".toList = "a.b".toList := by decide
+example : fileLabel "genome.gz".toList = "genome".toList := by decide
+example : fileLabel "x.fasta.gz.gz".toList = "x.fasta.gz".toList := by decide
+example : fileLabel "reads.fastq".toList = "reads.fastq".toList := by decide
+
+example : F32.fmt4 0x3D000000 = "0.0312" := by decide   -- 1/32 = 0.03125 exactly: half-even
+example : F32.fmt4 0x3F800000 = "1.0000" := by decide
+example : F32.fmt4 0 = "0.0000" := by decide
+example : F32.fmt4 0x3F000000 = "0.5000" := by decide
+example : fmt4Q 0x3D000000 = 312 ∧ render4 312 = "0.0312" := by decide
+
+example : distCsv ["q,1".toList, "q2".toList] ["r\"a".toList, "rb".toList]
+    [[0, 0x3F800000], [0x3D000000, 0x3F000000]] =
+    ",\"r\"\"a\",rb\r\n\"q,1\",0.0000,1.0000\r\nq2,0.0312,0.5000\r\n".toList := by decide
+
+example : parseCsv ",\"r\"\"a\",rb\r\n\"q,1\",0.0000,1.0000\r\nq2,0.0312,0.5000\r\n".toList =
+    [["".toList, "r\"a".toList, "rb".toList], ["q,1".toList, "0.0000".toList, "1.0000".toList],
+     ["q2".toList, "0.0312".toList, "0.5000".toList]] := by decide
+
+example : parseCsv (writeCsv ['\n'] [[[]], [['a', '\n', '"'], []], [[], [','], ['\r', '\n']]]) =
+    [[[]], [['a', '\n', '"'], []], [[], [','], ['\r', '\n']]] := by decide
+
+example : pairwiseSquare (fun a b : Nat => (a - b) + (b - a)) 0 [1, 5, 7] =
+    [1, 5, 7].map (fun a => [1, 5, 7].map (fun b => (a - b) + (b - a))) := by decide
+
 end GambitV.C16
